@@ -129,6 +129,7 @@ def resolver_rec(ctx: Ctx) -> Func:
     if best is None:
         raise AnchorError("role resolver-step (the directly recursive method of ObjectRetrieval) not found")
     c["resolver_rec"] = best[1]
+    ctx.report.roles[best[1].qname] = "role:resolver-step"
     return best[1]
 
 
